@@ -63,10 +63,14 @@ namespace hgraph
                 return count;
             }
 
-            void stop_and_destroy_noexcept() noexcept {
+            void stop_and_destroy_noexcept(FirstExceptionRecorder *failures = nullptr) noexcept {
                 for (std::size_t index = 0; index < entries.slot_capacity(); ++index) {
                     auto *entry = entries.entry_at(index);
                     if (entry == nullptr || !entry->graph.has_value() || !entry->graph.view().started()) { continue; }
+                    if (failures != nullptr) {
+                        failures->capture([&] { entry->graph.view().stop(); });
+                        continue;
+                    }
                     static_cast<void>(fallback_on_exception(false, [&] {
                         entry->graph.view().stop();
                         return true;
@@ -291,7 +295,11 @@ namespace hgraph
 
         void tsl_map_node_stop(const NodeView &view, DateTime) {
             auto typed = view.as<TslMapNodeView>();
-            MemoryUtils::cast<TslMapNodeStorage>(typed.internal_storage())->stop_and_destroy_noexcept();
+            // Best-effort, like Graph::stop: every child gets its stop attempt and the
+            // first failure is re-raised afterwards, so it reaches the caller.
+            FirstExceptionRecorder exceptions;
+            MemoryUtils::cast<TslMapNodeStorage>(typed.internal_storage())->stop_and_destroy_noexcept(&exceptions);
+            exceptions.rethrow_if_any();
         }
 
         void validate_tsl_map_node_spec(const NodeTypeMetaData &meta, const TslMapNodeSpec &spec) {
